@@ -1,6 +1,6 @@
 (* C14 — FRR mode: generated configuration.  Statements only; proofs in
    Proofs/FrrSortP.v FrrP.v FrrListsP.v FrrShapeP.v FrrSemP.v FrrOutP.v
-   FrrExactP.v FrrWfP.v FrrAdvPermP.v.
+   FrrExactP.v FrrWfP.v FrrAdvPermP.v FrrSeqP.v FrrMgrP.v.
    [render S] (Model/FrrRender.v) is the AST of the text createConfig +
    templateConfig produce for the session set S (None = createConfig fails);
    [sem_out ft um c vrf peer route] / [sem_in] / [sem_networks] (Model/FrrSem.v)
@@ -20,7 +20,7 @@
    validation of the real text. *)
 From Coq Require Import String NArith Bool List Permutation Sorted.
 From Verif Require Import Model.FrrSpec Proofs.FrrSortP Proofs.FrrP Proofs.FrrListsP Proofs.FrrShapeP Proofs.FrrSemP
-     Proofs.FrrOutP Proofs.FrrExactP Proofs.FrrWfP Proofs.FrrAdvPermP Model.FrrMgr Proofs.FrrMgrP.
+     Proofs.FrrOutP Proofs.FrrExactP Proofs.FrrWfP Proofs.FrrAdvPermP Proofs.FrrSeqP Model.FrrMgr Proofs.FrrMgrP.
 Import ListNotations.
 Open Scope string_scope.
 
@@ -115,6 +115,40 @@ Theorem C14_merged_advertisements_shape : forall f advs n, mk_neighbor f advs = 
   ssorted atext (nc_advs n) /\ forall y, In y (nc_advs n) -> supp (map advc_of advs) y.
 Proof. exact mk_neighbor_shape. Qed.
 
+(* ===== bridges between Model/FrrSem.v and FRR's evaluation ===== *)
+
+(* FRR evaluates the lines of a prefix-list and the entries of a route-map in SEQUENCE-NUMBER order; FrrSem.v
+   evaluates them in TEXT order.  They are the same order: the numbers `counter` assigns increase strictly, in
+   text order, within every prefix-list (afi, name) and every route-map of the rendered configuration *)
+Theorem C14_seq_increasing : forall S c, wf_sessions S -> render S = Some c -> seqs_increasing_b c = true.
+Proof. exact seqs_increasing. Qed.
+
+(* for the prefix-lists no premise is needed (one counter per list name, shared by both families) *)
+Theorem C14_pl_seq_increasing : forall S c a name, render S = Some c -> increasing (pl_seqs c a name) = true.
+Proof. exact pl_seqs_increasing. Qed.
+
+(* the in route-map of a session's neighbor has exactly one entry (deny, sequence number 20) *)
+Theorem C14_in_map_single_entry : forall S c rs s r n, wf_sessions S -> render S = Some c -> create_config S = Some rs ->
+  In s S -> In r rs -> mk_router S (rkey s) = Some r -> In n (rc_nbrs r) -> nc_s n = s ->
+  rm_entries c (rm_in s) = [mk_rme false [] [] false].
+Proof. exact rendered_rm_in. Qed.
+
+(* FRR matches BINARY prefixes; FrrSem.v compares prefix TEXTS.  Every prefix line of the rendered configuration
+   is a requested prefix, and under [canonical_texts] (equal prefixes have equal texts among the requested prefixes
+   and the probe route - an explicit hypothesis, decided by [canonical_texts_b]) comparing texts is comparing
+   binary prefixes on every line *)
+Theorem C14_line_prefix_requested : forall S c a nm sq pm q,
+  render S = Some c -> In (IPl a nm sq pm (Some q)) (items c) -> In q (all_pfx S).
+Proof. exact line_prefix_requested. Qed.
+
+Theorem C14_text_match_is_binary_match : forall S c a nm sq pm q p,
+  render S = Some c -> route_ok S p -> canonical_texts S p ->
+  In (IPl a nm sq pm (Some q)) (items c) -> pfx_eqb q p = prefix_eqb (p_net q) (p_net p).
+Proof. exact text_match_is_binary_match. Qed.
+
+Theorem C14_canonical_texts_b_sound : forall S p, canonical_texts_b S p = true -> canonical_texts S p.
+Proof. exact canonical_texts_b_sound. Qed.
+
 (* ===== address families (ip / ipv6 prefix-list namespaces) ===== *)
 
 (* a prefix-list line is written under the keyword of the family of its prefix *)
@@ -131,7 +165,13 @@ Proof. exact match_family. Qed.
 
 (* ===== the session manager (Model/FrrMgr.v): histories ===== *)
 (* [mrun gen_frr true minit None ops]: final state, per-operation "no error", last configuration handed to the
-   reload channel.  [hist_ok]: NewSession only for names not in the table, one session per neighbor and router. *)
+   reload channel.  The history theorems are NOT for arbitrary operation sequences: [hist_ok] restricts them to
+   histories in which NewSession is only issued for a name not in the table and (FRR mode, [good_frr]) the table
+   never holds two sessions for one neighbor of one router - what the speaker does.  In FRR mode both premises are
+   premises of the PROOF (Close is shown not to fail via "one session per neighbor"); no counterexample is known
+   without them (a NewSession cannot fail from a renderable FRR state).  In frr-k8s mode the fresh-name premise is
+   NECESSARY: C15_mgr_history_in_sync_refuted.  C14_mgr_hist_ok_nonvacuous: such histories exist, with several
+   sessions, a refused Set and a Close. *)
 
 (* after ANY history the last configuration handed on is the one generated from the final state (or
    nothing was ever handed on and the state is initial), and the final state is renderable *)
@@ -165,8 +205,10 @@ Proof. exact (set_invalid_refused gen_frr true). Qed.
 
 (* an accepted operation hands on exactly the configuration generated from the new state *)
 Theorem C14_mgr_step_ok : forall st o st' c, mstep gen_frr true st o = (st', true, c) ->
-  (c = cfg_of gen_frr st' /\ c <> None) \/ (true = false /\ exists e, o = MExtra e /\ st' = st /\ c = None).
-Proof. exact (step_ok_cfg gen_frr true). Qed.
+  c = cfg_of gen_frr st' /\ c <> None.
+Proof.
+  intros st o st' c H. destruct (step_ok_cfg gen_frr true st o st' c H) as [A|[X _]]; [exact A|discriminate].
+Qed.
 
 (* the session table always has distinct names, each entry under its own name *)
 Theorem C14_mgr_table_invariant : forall ops st last st' oks last',
@@ -177,6 +219,22 @@ Proof. exact (table_invariant gen_frr true). Qed.
 Theorem C14_render_some_iff : forall S, wf_lite S ->
   (render S <> None <-> forall s, In s S -> mk_neighbor s (s_advs s) <> None).
 Proof. intros S W. split; [apply render_all; assumption|apply render_some; assumption]. Qed.
+
+Example C14_mgr_hist_ok_nonvacuous :
+  let p := mk_pfx "172.16.1.10/32" {| pfam := F4; pbase := 2886730010; plen := 32 |} in
+  let q := mk_pfx "fc00:f853:ccd:e799::/64" {| pfam := F6; pbase := 334965454937798799971759379190646833152; plen := 64 |} in
+  let s1 := mk_session 100 (Some "10.1.1.254") "" "10.2.2.254" true "" 200 "" None 179 None None None "" "" false false false [] ("", "") in
+  let s2 := mk_session 100 (Some "10.1.1.254") "" "192.168.1.1" true "" 200 "" None 179 None None None "" "" false false true [] ("", "") in
+  let ops := [MNew s1; MSet s1 [mk_adv p 300 [(false, "65000:200")]; mk_adv q 0 []]; MNew s2;
+              MSet s2 [mk_adv p 300 []; mk_adv p 200 []];      (* refused: two local preferences for p *)
+              MSet s2 [mk_adv p 100 []]; MBfd [("b", 1%N)]; MExtra "x"; MClose s1] in
+  hist_ok gen_frr true good_frr minit ops /\
+  exists st last, mrun gen_frr true minit None ops = (st, [true; true; true; false; true; true; true; true], last) /\
+                  map fst (ms_sessions st) = [sname s2] /\ last <> None /\ last = cfg_of gen_frr st.
+Proof.
+  intros p q s1 s2 ops. split; [apply hist_ok_frr_b_sound; vm_compute; reflexivity|].
+  eexists. eexists. split; [vm_compute; reflexivity|]. split; [vm_compute; reflexivity|]. split; [discriminate|vm_compute; reflexivity].
+Qed.
 
 (* ===== further structure ===== *)
 
@@ -190,8 +248,10 @@ Proof. exact in_denied_rendered. Qed.
 Theorem C14_in_map_is_not_out_map : forall s, rm_in s <> rm_out s.
 Proof. exact rm_in_neq_out. Qed.
 
-(* session parameters and per-family activation on the rendered neighbor; the
-   route-maps it is activated with are always its own in / out maps *)
+(* session parameters and per-family activation on the rendered neighbor; the route-maps it is activated with are
+   always its own in / out maps.  BY DEFINITION: the first eleven conjuncts restate the body of the model function
+   render_nbr (their weight is the per-case equality of the parsed real text with the model, Run_Frr code 1); only
+   the activation table says something beyond unfolding *)
 Theorem C14_frr_params : forall asn n,
   let s := nc_s n in let r := render_nbr asn n in
   n_peer r = peer_tok s /\ n_iface r = nonempty (s_iface s) /\ n_asn r = asn_for s /\
@@ -230,12 +290,14 @@ Theorem C14_frr_networks_exact : forall S k r, mk_router S k = Some r ->
                      mk_neighbor f (flat_map s_advs (f :: more)) = Some n.
 Proof. exact mk_router_spec. Qed.
 
-(* the semantics does not depend on the sequence numbers the counters assign *)
-Theorem C14_numbering_is_cosmetic : forall l cnt,
+(* [number] only fills in the sequence-number field (by construction; that the MODEL semantics does not read that
+   field says nothing about FRR: the bridge to FRR's order is C14_seq_increasing above) *)
+Theorem C14_number_only_sets_seq : forall l cnt,
   map strip (number l cnt) = map (fun x => strip (snd x)) l.
 Proof. exact number_strip. Qed.
 
-Theorem C14_sem_ignores_seq : forall its rs a name,
+(* by construction of pl_lines / rm_entries *)
+Theorem C14_model_sem_ignores_seq : forall its rs a name,
   pl_lines (mk_frr (map strip its) rs) a name = pl_lines (mk_frr its rs) a name /\
   rm_entries (mk_frr (map strip its) rs) name = rm_entries (mk_frr its rs) name.
 Proof. intros. split; [apply pl_lines_strip|apply rm_entries_strip]. Qed.
@@ -283,14 +345,18 @@ Theorem C14_block_lists_defined : forall f advs n, mk_neighbor f advs = Some n -
     In (IRm nm sq pm m st nx) (map snd (neighbor_filters n)) -> In (a, name) m -> has_line n a name.
 Proof. exact block_lists_defined. Qed.
 
-(* F15: frr_out_exact is REFUTED for a neighbor peered by interface with
-   DisableMP — the requested route is offered under no reading of the semantics *)
+(* F15: without the hypothesis f15_shape s = false, frr_out_exact is REFUTED: the witness satisfies every OTHER
+   hypothesis (well-formed, route_ok, canonical texts) and has the F15 shape - a neighbor peered by interface with
+   DisableMP - and the requested route is offered under no reading of the semantics *)
 Theorem C14_frr_out_exact_refuted : exists s route c,
+  wf_sessions [s] /\ route_ok [s] route /\ canonical_texts [s] route /\ f15_shape s = true /\
   render [s] = Some c /\ intended s route <> None /\
   forall ft um, sem_out ft um c (s_vrf s) (peer_tok s) route = None.
 Proof.
   exists f15_witness, (mk_pfx "2001:db8::1/128" {| pfam := F6; pbase := 42540766411282592856903984951653826561; plen := 128 |}).
-  eexists. split; [vm_compute; reflexivity|]. split; [vm_compute; discriminate|].
+  eexists. split; [apply wf_sessions_b_sound; vm_compute; reflexivity|]. split; [apply route_ok_b_sound; vm_compute; reflexivity|].
+  split; [apply canonical_texts_b_sound; vm_compute; reflexivity|]. split; [reflexivity|].
+  split; [vm_compute; reflexivity|]. split; [vm_compute; discriminate|].
   intros [|] [|]; vm_compute; reflexivity.
 Qed.
 
